@@ -53,18 +53,20 @@ def run(ctx):
     inplace_rewrites_truncate(ctx, 'D7')
 
 
-def d1_no_cache(ctx, c, reader):
+def d1_no_cache(ctx, c, reader, clause='D1', only_cache=False):
     for a, lst in c.attr_exprs.items():
         for f, val, st in lst:
             bad = DICT in ctx.R.etype(val, f) or any(
                 cal is reader for n, cal in ctx.E.callees(f) if any(x is n for x in ast.walk(val)))
-            ctx.decide(not bad, 'R-OWN', 'D1', f, st, f'attr::{a}',
+            ctx.decide(not bad, 'R-OWN', clause, f, st, f'attr::{a}',
                        f'MetaData.{a} does not hold file content', detail='metadata content is cached in the handle: a '
                        'fresh handle or another process would see different values')
     for f in c.all_funcs():
         if f.decorators & {'lru_cache', 'cache', 'cached_property', 'functools.lru_cache', 'functools.cache',
                            'functools.cached_property'}:
-            ctx.bad('R-OWN', 'D1', f, None, 'memoised', f'{f.qualname} is not memoised', detail=f'decorators {f.decorators}')
+            ctx.bad('R-OWN', clause, f, None, 'memoised', f'{f.qualname} is not memoised', detail=f'decorators {f.decorators}')
+    if only_cache:
+        return
     n = 0
     from ..rules import transitively_calls
     for name in READ_ACCESSORS:
